@@ -822,7 +822,8 @@ class Fxp():
             val = np.array(val)
 
         # narrow numpy types are widened: values are scaled and transformed as 64 bits integers or double precision floats
-        if val.dtype.kind in 'iu' and val.dtype.itemsize < 8:
+        # (booleans are the integers 0 and 1)
+        if val.dtype.kind == 'b' or (val.dtype.kind in 'iu' and val.dtype.itemsize < 8):
             val = val.astype(np.int64)
         elif val.dtype.kind == 'f' and val.dtype.itemsize < 8:
             val = val.astype(np.float64)
